@@ -315,3 +315,63 @@ Theorem string_double_answer : forall s,
   | None => MNo
   end.
 Proof. intros s. rewrite string_double_regex_shape. apply (str_answer 34); [discriminate | reflexivity]. Qed.
+
+(* ================================================================== D. the un-escape pass  re.sub(r'\\([\\q])', r'\1', body) *)
+Definition esc_regex (q : N) : regex := RCat (RLit 92) (RGroup 1 (RIn false [CLit 92%N; CLit q])).
+
+Lemma string_escape_shape : R_EXPR_STRING_ESCAPE = esc_regex 39.
+Proof. reflexivity. Qed.
+Lemma string_double_escape_shape : R_EXPR_STRING_DOUBLE_ESCAPE = esc_regex 34.
+Proof. reflexivity. Qed.
+
+(* the engine's answer for the escape pattern at any position of any text *)
+Lemma ev_esc q pos rest :
+  ev UC (esc_regex q) pos rest [] kfin =
+  match rest with
+  | y :: z :: _ => if ((y =? 92) && ((z =? 92) || (z =? q)))%N then MYes (S (S pos)) [(1%nat, (S pos, S (S pos)))] else MNo
+  | _ => MNo
+  end.
+Proof.
+  unfold esc_regex. rewrite ev_cat. rewrite (ev_one UC _ _ (one_lit UC 92)).
+  destruct rest as [|y t]; [reflexivity|]. destruct (y =? 92)%N; [|destruct t; reflexivity].
+  cbv beta. rewrite ev_group. rewrite (ev_one UC _ _ (one_in UC false _)). destruct t as [|z t']; [reflexivity|].
+  unfold class_match. rewrite Bool.xorb_false_l. cbn [existsb item_match]. rewrite orb_false_r. cbn [andb].
+  destruct ((z =? 92) || (z =? q))%N; reflexivity.
+Qed.
+
+Lemma skipn_cons_tl {A} : forall pos (whole : list A) y t, skipn pos whole = y :: t -> skipn (S pos) whole = t.
+Proof.
+  induction pos as [|pos IH]; intros whole y t H; destruct whole as [|a w]; try discriminate.
+  - cbn [skipn] in *. inversion H. reflexivity.
+  - cbn [skipn] in H. change (skipn (S (S pos)) (a :: w)) with (skipn (S pos) w). exact (IH w y t H).
+Qed.
+
+Lemma sub_unescape q whole : forall f pos rest, length rest < f -> skipn pos whole = rest ->
+  re_sub_from UC (esc_regex q) (fun c => grp whole c 1) whole f pos rest = Some (unescape_direct q rest).
+Proof.
+  induction f as [|f IH]; intros pos rest L E; [lia|].
+  cbn [re_sub_from]. rewrite m_at_ev by (rewrite <- E, skipn_length; lia). rewrite ev_esc.
+  destruct rest as [|y t]; [reflexivity|].
+  cbn [length] in L. pose proof (skipn_cons_tl _ _ _ _ E) as E1. cbn [unescape_direct].
+  destruct t as [|z t'].
+  { rewrite (IH (S pos) []) by (cbn [length]; lia || exact E1). cbn [unescape_direct option_map].
+    destruct (y =? 92)%N; reflexivity. }
+  cbn [length] in L. pose proof (skipn_cons_tl _ _ _ _ E1) as E2.
+  destruct (y =? 92)%N.
+  - cbn [andb]. destruct ((z =? 92) || (z =? q))%N.
+    + assert (Hlt : Nat.ltb pos (S (S pos)) = true) by (apply Nat.ltb_lt; lia).
+      rewrite Hlt. replace (S (S pos) - pos) with 2 by lia. cbn [skipn].
+      rewrite (IH (S (S pos)) t') by (lia || exact E2). cbn [option_map]. f_equal.
+      unfold grp, group_text, cap_set. cbn [cap_get Nat.eqb].
+      replace (S (S pos) - S pos) with 1 by lia. unfold sub_list. rewrite E1. reflexivity.
+    + rewrite (IH (S pos) (z :: t')) by (cbn [length]; lia || exact E1). reflexivity.
+  - cbn [andb]. rewrite (IH (S pos) (z :: t')) by (cbn [length]; lia || exact E1). reflexivity.
+Qed.
+
+Theorem unescape_answer q s : unescape (esc_regex q) s = Some (unescape_direct q s).
+Proof. unfold unescape, re_sub. apply sub_unescape; [lia | reflexivity]. Qed.
+
+Theorem string_unescape_answer : forall t, unescape R_EXPR_STRING_ESCAPE t = Some (unescape_direct 39 t).
+Proof. intros t. rewrite string_escape_shape. apply unescape_answer. Qed.
+Theorem string_double_unescape_answer : forall t, unescape R_EXPR_STRING_DOUBLE_ESCAPE t = Some (unescape_direct 34 t).
+Proof. intros t. rewrite string_double_escape_shape. apply unescape_answer. Qed.
